@@ -385,4 +385,40 @@ def bulk (tb : Tables) : FS → List (Task × List (Path × Nat)) → FS × List
   | fs, (t, pr) :: ts => (fun (x : FS × String) => (fun (r : FS × List String) => (r.1, x.2 :: r.2)) (bulk tb x.1 ts))
                            (pipeline tb fs t pr)
 
+/-! ### the scratch tarball of client-side input staging (`_handle_task`)
+
+Several task managers - of one or of several sessions on the same client host - pack, ship and remove their
+scratch tarballs at the same time; task uids repeat across sessions (`task.000000` exists in each).  A *call*
+is one `_handle_task` invocation; it works on the scratch file `scratchOf unique call uid`. -/
+
+/-- the name of the scratch file: one of its own per call when the operating system hands it out
+    (`tempfile.NamedTemporaryFile`), otherwise whatever the task uid determines -/
+def scratchOf (unique : Bool) (call uid : Nat) : Nat × Nat :=
+  if unique then (0, call) else (1, uid)
+
+inductive TarOp where
+  | pack (members : Nat)     -- `tarfile.open(.., 'w')` .. `close()`: the file now holds these members
+  | ship                     -- `handle_staging_directive(tar_sd)`: reads the file
+  | remove                   -- `os.remove(tar_path)`
+deriving DecidableEq, Repr
+
+abbrev Scratch := List ((Nat × Nat) × Nat)
+
+def scratchGet (d : Scratch) (p : Nat × Nat) : Option Nat := (d.find? (fun e => e.1 = p)).map (·.2)
+
+/-- one step of one call; a `ship` reports what it found (`none`: no such file) -/
+def tarStep (d : Scratch) (p : Nat × Nat) : TarOp → Scratch × Option (Option Nat)
+  | .pack m => ((p, m) :: d.filter (fun e => e.1 ≠ p), none)
+  | .ship   => (d, some (scratchGet d p))
+  | .remove => (d.filter (fun e => e.1 ≠ p), none)
+
+/-- any interleaving of the steps of any number of calls: (call, uid of its task, step); returns per `ship`
+    the call and what it shipped -/
+def tarRun (unique : Bool) : Scratch → List (Nat × Nat × TarOp) → List (Nat × Option Nat)
+  | _, []                   => []
+  | d, (c, u, op) :: rest =>
+    match tarStep d (scratchOf unique c u) op with
+    | (d', some r) => (c, r) :: tarRun unique d' rest
+    | (d', none)   => tarRun unique d' rest
+
 end RPVerif.Staging
